@@ -496,28 +496,51 @@ def splitRest (m : SMap) (s e : Nat) : List Str → Option (List Item)
     | .ok it, some rest => some (it :: rest)
     | _, _ => none
 
-/-- the `;` resolution of `_next` for an item that passed the emptiness filter -/
-def splitSemicolon (it : Item) (r : Rd) : Res Item × Rd :=
+/-- the first `;`-separated part: `first = first.strip(); if first or item.label is not None or
+    item.name is not None: items.append(item.copy(repmap(first)))`; `none` = `Line("")` raised -/
+def splitFirst (m : SMap) (f : Str) (label : Option Nat) (name : Option Str) (s e : Nat) :
+    Option (List Item) :=
+  if f != [] || label.isSome || name.isSome then
+    match mkLine (applyMap m f) label name s e with
+    | .ok x => some [x]
+    | _ => none
+  else some []
+
+/-- the `;` resolution of `_next` for an item that passed the emptiness filter.
+    `none` = the line consisted of statement separators only (`if not items: return self._next(…)`).
+    An empty first part is skipped unless the line carries a label or a construct name
+    (then `Line("")` still raises). -/
+def splitSemicolon (it : Item) (r : Rd) : Option (Res Item × Rd) :=
   match it.lineView with
-  | none => (.ok it, r)
+  | none => some (.ok it, r)
   | some (text, label, name, s, e) =>
     -- trigger: `";" in item.get_line()` (the lower-cased tokenisation)
-    if !(stringReplaceMap text true).1.contains ';' then (.ok it, r) else
+    if !(stringReplaceMap text true).1.contains ';' then some (.ok it, r) else
     -- `tokenised, repmap = string_replace_map(item.line, lower=False)`
     let tm := stringReplaceMap text false
     match splitOnChar tm.1 ';' with
-    | [] => (.err, r)
+    | [] => some (.err, r)
     | first :: rest =>
-      match mkLine (applyMap tm.2 (strip first)) label name s e, splitRest tm.2 s e rest with
-      | .ok f, some others => (.ok f, { r with fifo := others ++ r.fifo })
-      | _, _ => (.err, r)
+      match splitFirst tm.2 (strip first) label name s e, splitRest tm.2 s e rest with
+      | some h, some others =>
+        match h ++ others with
+        | [] => none
+        | x :: xs => some (.ok x, { r with fifo := xs ++ r.fifo })
+      | _, _ => some (.err, r)
 
-/-- `_next()` -/
-def next1 (r : Rd) : Res Item × Rd :=
-  let p := nextRaw (nextRawFuel r) r
-  match p.1 with
-  | .ok it => splitSemicolon it p.2
-  | _ => p
+/-- `_next()`; the recursion is `return self._next(ignore_comments)` after a separators-only line -/
+def next1Loop : Nat → Rd → Res Item × Rd
+  | 0, r => (.stop, r)
+  | fuel+1, r =>
+    let p := nextRaw (nextRawFuel r) r
+    match p.1 with
+    | .ok it =>
+      match splitSemicolon it p.2 with
+      | some q => q
+      | none => next1Loop fuel p.2
+    | _ => p
+
+def next1 (r : Rd) : Res Item × Rd := next1Loop (nextRawFuel r) r
 
 /-! ### next / get_item / put_item with INCLUDE readers -/
 
